@@ -75,14 +75,17 @@ CLAIMED = {
             'with the numeric kernels uninterpreted: all prefixes of up to two earlier operations {simulate HYBRID, simulate HOURLY, size} at '
             'other symbolic heights on one GHE object; the interpolation cache after an earlier query at any height; the search + sizing '
             'repeated, after an unrelated search, and from another nominal borehole height; 24 (200) setter orders; mutable defaults; the '
-            'equivalent-tube conversion applied twice.',
+            'equivalent-tube conversion applied twice; the long-time g-function computation (real calc_g_func_for_multiple_lengths / '
+            'calculate_g_function over a contract stub of pygfunction) after one or two earlier computations with other media, soil, flow or '
+            'geometry.',
             'kernels are functions of the arguments they receive (bit-identity of floats beyond that is outside); queries within 2 mm of the '
             'extreme stored heights excluded (binary64 snapping tolerances)', '3/C13', None),
     'C14': ('For each concrete convex polygon (6 catalogue + seeded random polygons with 3..12 vertices, both orientations, touching the axes) '
             'and rotation, for ALL target spacings in [5,25] m: generator terminates within derived loop bounds, every borehole inside/on '
             'the outline, pair distances >= s, exact lattice on axis-aligned rectangles, rigid translation; rotation sweep returns the first '
-            'rotation with the maximal count for all count vectors; with perimeter spacing / no-go zones: inside the outline and outside '
-            'the zones (spacings in [5,12]).',
+            'rotation with the maximal count for all count vectors; lots narrower than the spacing and exact-divisor rectangles; with no-go '
+            'zones (plain generator with 1-3 zones in both list orders, and the perimeter variant): inside the outline and outside every '
+            'zone (spacings in [5,12]).',
             'polygon and rotation concrete (trig of symbolic arguments unsupported); coordinates natively in binary64; spacing regions thinner '
             'than 1e-9 relative excluded from the lattice/translation clauses; gen_borehole_config stubbed by symbolic counts in the sweep units',
             '3/C14', None),
